@@ -186,6 +186,16 @@ func NoteInt(key string, v int) { Note(key, fmt.Sprint(v)) }
 func AssumeCleanPaths()    {}
 func MapOrder(on bool)     {}
 func Yield()               {}
+
+// ExternalEvent blocks until the engine's scheduler decides to deliver an event from outside the
+// program (a signal): by default only when nothing else can run, or before any visible step at
+// the cost of one scheduling deviation. Natively the event never arrives.
+func ExternalEvent(name string) { select {} }
+
+// ProcessExit models the end of a grog process inside one harness run: under the engine all
+// goroutines other than the caller die. Natively nothing happens.
+func ProcessExit() {}
+
 func IsConcrete(s string) bool { return true }
 
 // RunToCrash runs f; under the engine f may be cut short at any file-system operation
